@@ -122,7 +122,7 @@ def handle (line : String) : String :=
 partial def loop (stdin : IO.FS.Stream) (stdout : IO.FS.Stream) : IO Unit := do
   let line ← stdin.getLine
   if line.isEmpty then return
-  let l := String.mk (line.toList.filter (fun c => c != '\n' && c != '\r'))
+  let l := String.ofList (line.toList.filter (fun c => c != '\n' && c != '\r'))
   if l ≠ "" then stdout.putStrLn (handle l)
   loop stdin stdout
 
